@@ -61,16 +61,35 @@ def vertices(A, b, n):
     return out
 
 
+_poly_cache = {}
+
+
+def _polyhedron(A, b, n):
+    """(vertices, normalised recession directions) of {A x <= b, x >= 0}; cached, independent of the objective."""
+    key = (tuple(tuple(r) for r in A), tuple(b), n)
+    hit = _poly_cache.get(key)
+    if hit is not None:
+        return hit
+    V = vertices(A, b, n)
+    R = []
+    if V:
+        A2 = [list(r) for r in A] + [[1] * n, [-1] * n]
+        b2 = [0] * len(A) + [1, -1]
+        R = vertices(A2, b2, n)
+    if len(_poly_cache) > 64:
+        _poly_cache.clear()
+    _poly_cache[key] = (V, R)
+    return V, R
+
+
 def solve_exact(c, A, b, minimize=True):
     """-> ('infeasible', None, None) | ('unbounded', None, None) | ('optimal', x, obj)"""
     n = len(c)
     cc = [F(v) if minimize else -F(v) for v in c]
-    V = vertices(A, b, n)
+    V, R = _polyhedron(A, b, n)
     if not V:
         return ("infeasible", None, None)
-    A2 = [list(r) for r in A] + [[1] * n, [-1] * n]
-    b2 = [0] * len(A) + [1, -1]
-    for d in vertices(A2, b2, n):
+    for d in R:
         if sum(ci * di for ci, di in zip(cc, d)) < 0:
             return ("unbounded", None, None)
     best = min(V, key=lambda x: sum(ci * xi for ci, xi in zip(cc, x)))
